@@ -80,14 +80,16 @@ Ltac shifted64_small R :=
     let Hz := fresh "Zq" in
     assert (Hz : q / 2^64 = 0) by abstract (rewrite H; apply Z.div_small; unfold u64, R in *; lia) end.
 
-Theorem fe_mul_inner_correct a0 a1 a2 a3 a4 b0 b1 b2 b3 b4 :
+(* weakest-precondition form (the continuation is arbitrary), so that callers translated as calls compose by [apply] *)
+Theorem fe_mul_inner_wp a0 a1 a2 a3 a4 b0 b1 b2 b3 b4 (Q : Z -> Z -> Z -> Z -> Z -> Prop) :
   0 <= a0 < 2^56 -> 0 <= a1 < 2^56 -> 0 <= a2 < 2^56 -> 0 <= a3 < 2^56 -> 0 <= a4 < 2^52 ->
   0 <= b0 < 2^56 -> 0 <= b1 < 2^56 -> 0 <= b2 < 2^56 -> 0 <= b3 < 2^56 -> 0 <= b4 < 2^52 ->
-  fe_mul_inner_k a0 a1 a2 a3 a4 b0 b1 b2 b3 b4 (fun r0 r1 r2 r3 r4 =>
-  (0 <= r0 < 2^52 /\ 0 <= r1 < 2^52 /\ 0 <= r2 < 2^52 /\ 0 <= r3 < 2^52 /\ 0 <= r4 < 2^49) /\
-  (val5 r0 r1 r2 r3 r4 - val5 a0 a1 a2 a3 a4 * val5 b0 b1 b2 b3 b4) mod P256 = 0).
+  (forall r0 r1 r2 r3 r4,
+    (0 <= r0 < 2^52 /\ 0 <= r1 < 2^52 /\ 0 <= r2 < 2^52 /\ 0 <= r3 < 2^52 /\ 0 <= r4 < 2^49) /\
+    (val5 r0 r1 r2 r3 r4 - val5 a0 a1 a2 a3 a4 * val5 b0 b1 b2 b3 b4) mod P256 = 0 -> Q r0 r1 r2 r3 r4) ->
+  fe_mul_inner_k a0 a1 a2 a3 a4 b0 b1 b2 b3 b4 Q.
 Proof.
-  intros Ha0 Ha1 Ha2 Ha3 Ha4 Hb0 Hb1 Hb2 Hb3 Hb4.
+  intros Ha0 Ha1 Ha2 Ha3 Ha4 Hb0 Hb1 Hb2 Hb3 Hb4 HQ.
   pose proof (mulb a0 b0 (2^56-1) (2^56-1) ltac:(lia) ltac:(lia)) as P00.
   pose proof (mulb a0 b1 (2^56-1) (2^56-1) ltac:(lia) ltac:(lia)) as P01.
   pose proof (mulb a0 b2 (2^56-1) (2^56-1) ltac:(lia) ltac:(lia)) as P02.
@@ -120,37 +122,38 @@ Proof.
      + (a1*b4 + a2*b3 + a3*b2 + a4*b1) * 2^260
      + (a2*b4 + a3*b3 + a4*b2) * 2^312 + (a3*b4 + a4*b3) * 2^364 + a4*b4 * 2^416)
     by (unfold val5; ring).
-  rewrite Hprod; clear Hprod.
+  rewrite Hprod in HQ; clear Hprod.
   cbv beta delta [fe_mul_inner_k].
-  generalize dependent (a0*b0); intros p00 ?.
-  generalize dependent (a0*b1); intros p01 ?.
-  generalize dependent (a0*b2); intros p02 ?.
-  generalize dependent (a0*b3); intros p03 ?.
-  generalize dependent (a0*b4); intros p04 ?.
-  generalize dependent (a1*b0); intros p10 ?.
-  generalize dependent (a1*b1); intros p11 ?.
-  generalize dependent (a1*b2); intros p12 ?.
-  generalize dependent (a1*b3); intros p13 ?.
-  generalize dependent (a1*b4); intros p14 ?.
-  generalize dependent (a2*b0); intros p20 ?.
-  generalize dependent (a2*b1); intros p21 ?.
-  generalize dependent (a2*b2); intros p22 ?.
-  generalize dependent (a2*b3); intros p23 ?.
-  generalize dependent (a2*b4); intros p24 ?.
-  generalize dependent (a3*b0); intros p30 ?.
-  generalize dependent (a3*b1); intros p31 ?.
-  generalize dependent (a3*b2); intros p32 ?.
-  generalize dependent (a3*b3); intros p33 ?.
-  generalize dependent (a3*b4); intros p34 ?.
-  generalize dependent (a4*b0); intros p40 ?.
-  generalize dependent (a4*b1); intros p41 ?.
-  generalize dependent (a4*b2); intros p42 ?.
-  generalize dependent (a4*b3); intros p43 ?.
-  generalize dependent (a4*b4); intros p44 ?.
+  generalize dependent (a0*b0); intros p00 ? ?.
+  generalize dependent (a0*b1); intros p01 ? ?.
+  generalize dependent (a0*b2); intros p02 ? ?.
+  generalize dependent (a0*b3); intros p03 ? ?.
+  generalize dependent (a0*b4); intros p04 ? ?.
+  generalize dependent (a1*b0); intros p10 ? ?.
+  generalize dependent (a1*b1); intros p11 ? ?.
+  generalize dependent (a1*b2); intros p12 ? ?.
+  generalize dependent (a1*b3); intros p13 ? ?.
+  generalize dependent (a1*b4); intros p14 ? ?.
+  generalize dependent (a2*b0); intros p20 ? ?.
+  generalize dependent (a2*b1); intros p21 ? ?.
+  generalize dependent (a2*b2); intros p22 ? ?.
+  generalize dependent (a2*b3); intros p23 ? ?.
+  generalize dependent (a2*b4); intros p24 ? ?.
+  generalize dependent (a3*b0); intros p30 ? ?.
+  generalize dependent (a3*b1); intros p31 ? ?.
+  generalize dependent (a3*b2); intros p32 ? ?.
+  generalize dependent (a3*b3); intros p33 ? ?.
+  generalize dependent (a3*b4); intros p34 ? ?.
+  generalize dependent (a4*b0); intros p40 ? ?.
+  generalize dependent (a4*b1); intros p41 ? ?.
+  generalize dependent (a4*b2); intros p42 ? ?.
+  generalize dependent (a4*b3); intros p43 ? ?.
+  generalize dependent (a4*b4); intros p44 ? ?.
   clear Ha0 Ha1 Ha2 Ha3 Ha4 Hb0 Hb1 Hb2 Hb3 Hb4.
   change (u64 (fe_mul_inner_R * 2^12)) with (fe_mul_inner_R * 2^12).
   change (fe_mul_inner_R / 2^4) with 0x1000003D1.
   repeat (step fe_mul_inner_M fe_mul_inner_R).
+  match goal with HQ' : forall r0 r1 r2 r3 r4 : Z, _ |- _ => apply HQ'; clear HQ' end.
   shifted64_small fe_mul_inner_R.
   split.
   { abstract (unfold u64, fe_mul_inner_R in *; repeat split; try (subst; apply Z.mod_pos_bound; lia); try lia). }
@@ -168,3 +171,12 @@ Proof.
     try (apply Z.divide_mul_l; apply Z.mod_divide; [unfold P256; lia | vm_compute; reflexivity]);
     try (apply Z.divide_opp_r; apply Z.divide_mul_l; apply Z.mod_divide; [unfold P256; lia | vm_compute; reflexivity])).
 Qed.
+
+Theorem fe_mul_inner_correct a0 a1 a2 a3 a4 b0 b1 b2 b3 b4 :
+  0 <= a0 < 2^56 -> 0 <= a1 < 2^56 -> 0 <= a2 < 2^56 -> 0 <= a3 < 2^56 -> 0 <= a4 < 2^52 ->
+  0 <= b0 < 2^56 -> 0 <= b1 < 2^56 -> 0 <= b2 < 2^56 -> 0 <= b3 < 2^56 -> 0 <= b4 < 2^52 ->
+  fe_mul_inner_k a0 a1 a2 a3 a4 b0 b1 b2 b3 b4 (fun r0 r1 r2 r3 r4 =>
+  (0 <= r0 < 2^52 /\ 0 <= r1 < 2^52 /\ 0 <= r2 < 2^52 /\ 0 <= r3 < 2^52 /\ 0 <= r4 < 2^49) /\
+  (val5 r0 r1 r2 r3 r4 - val5 a0 a1 a2 a3 a4 * val5 b0 b1 b2 b3 b4) mod P256 = 0).
+Proof. intros. apply fe_mul_inner_wp; try assumption. intros r0 r1 r2 r3 r4 H'. exact H'. Qed.
+
